@@ -133,7 +133,10 @@ def check(report, tier, only=None):
     report.trusted += ['z3 5.1', 'finite-map model of HashMap', 'Connection accessors uninterpreted (checked by C04 connection_accessors)']
     from props import handler
     # add_transition: the surviving connection is the one that is registered AND the one returned to be served (its handler is started)
-    for f in (ob_compose, ob_late_exit, C04.ob_add, lambda rep: handler.ob_add_peer(rep, 'C05'), lambda rep: handler.ob_handler_tail(rep, 'C05')):
+    from props import C03 as _C03
+    # every established connection - whichever side dialed, whatever is already registered - is handed to add(): the tie-break alone decides which
+    # of two connections survives (a shortcut that drops a finished dial because "we are already connected" makes the two sides keep different ones)
+    for f in (ob_compose, ob_late_exit, C04.ob_add, lambda rep: handler.ob_add_peer(rep, 'C05'), lambda rep: handler.ob_handler_tail(rep, 'C05'), _C03.ob_connecting_result):
         if only and not any(s in getattr(f, '__name__', 'handler') for s in only):
             continue
         f(report)
